@@ -72,6 +72,7 @@ def run(R):
                  "only if InitChain refuses the export with 'invalid genesis version' (regression of 0bb355b) does the harness rewrite the version string so that the deeper comparison can run; the refusal itself is reported as import-panic:upgrade/version",
                  "restart schedules: besides the same-time restart every history is also re-imported under one (history 0 and the thorough tier: all) of later-7s, later-35d (beyond every pending deadline of the populated states), higher-1000 (InitialHeight + 1000) and both; a freshly replayed original chain and the re-imported chain then get the same further blocks at the same later times; balances are not compared under a height shift (block rewards depend on the height through the validator-performance window)",
                  "metamorphic import obligation: every exported genesis is also imported with the entries of every top-level record list of every module reversed (even histories) / shuffled (odd; history 0 and thorough: both); the raw stores must equal those of the unpermuted import and the same probes must answer alike. Kept in order: customstaking.validators (order of the validator updates handed to consensus), bank.supply (sdk.Coins must be sorted), genutil.gen_txs (applied in list order); arrays of scalars and arrays nested inside records (coins, permission lists, token lists) are values, not record lists",
+                 "window parameters: every history draws the parameters that govern how long something is kept (distributor SnapPeriod 1..5 instead of 1000 in 60% of the histories and in history 0, poll duration 10 s, basket LimitsPeriod 8 s, AutocompoundIntervalNumBlocks 1..3, MaxMischance 2..4, proposal end / enactment times 120/60 s, one 700000 s block so that the unstaking period elapses) so that each time/height-windowed store class is in its steady state (full window, entries being pruned) at export; the first block after the restart is probed (validator vote counts, fees treasury, balances)",
                  "auth / bank / params / consensus (SDK modules) are compared raw, not modelled"]
     R.gen("gen_genesis", "GenesisCoverage.v")
     R.coq_files(FILES)
